@@ -40,6 +40,7 @@ theorem inv_step (e : Ev) (s : St) (h : Inv s) : Inv (step e s) := by
   | begin => exact inv_begin s h
   | commit => exact inv_commit s h
   | write k v => exact inv_write s k v h
+  | nop => exact h
   | fail => exact h
 
 /-- A commit strictly inside an open transaction neither flushes nor touches data. -/
@@ -98,6 +99,17 @@ theorem run_inside (es : List Ev) :
       rcases hpm with rfl | hpm
       · exact ⟨hi, rfl, by omega⟩
       · exact hp p hpm
+    | nop =>
+      simp only [run, step]
+      have hw' : wellNested r es = true := by simpa [wellNested] using hw
+      have := ih s b r hb hd hw' hi
+      obtain ⟨hp, hf, hc, hdpt⟩ := this
+      refine ⟨?_, hf, hc, hdpt⟩
+      intro p hpm
+      simp only [List.mem_cons] at hpm
+      rcases hpm with rfl | hpm
+      · exact ⟨hi, rfl, by omega⟩
+      · exact hp p hpm
     | commit =>
       cases r with
       | zero => simp [wellNested] at hw
@@ -125,6 +137,7 @@ theorem wellNested_mono (es : List Ev) : ∀ r, wellNested r es = true → wellN
     cases e with
     | begin => simpa [wellNested] using ih (r + 1) (by simpa [wellNested] using h)
     | write k v => simpa [wellNested] using ih r (by simpa [wellNested] using h)
+    | nop => simpa [wellNested] using ih r (by simpa [wellNested] using h)
     | fail => simpa [wellNested] using ih r (by simpa [wellNested] using h)
     | commit =>
       cases r with
@@ -153,6 +166,9 @@ theorem wellNested_append (xs ys : List Ev) :
       simp only [List.cons_append, wellNested]
       exact ih r (by simpa [wellNested] using h1) (by simpa [netDepth] using h2)
     | fail =>
+      simp only [List.cons_append, wellNested]
+      exact ih r (by simpa [wellNested] using h1) (by simpa [netDepth] using h2)
+    | nop =>
       simp only [List.cons_append, wellNested]
       exact ih r (by simpa [wellNested] using h1) (by simpa [netDepth] using h2)
     | commit =>
